@@ -105,7 +105,7 @@ def rule_y2(ctx, funcs: List[Func]) -> None:
                     continue
                 if isinstance(a, ast.Assign) and len(a.targets) == 1 and isinstance(a.targets[0], ast.Name) and a.targets[0].id in srcs:
                     s = a.targets[0].id
-                    if isinstance(a.value, ast.Call) and s in names_in(a.value) and names_in(a.value) & derived:
+                    if names_in(a.value) & derived:
                         # can another iteration follow this rebinding?
                         if cfg is None:
                             cfg = CFG(f.node)
